@@ -90,7 +90,6 @@ pub fn moved<S: Selector<[i32; 3]>>(sel: &S, pop: &[i32; 3], tape: &Tape) {
     assert!(r1.same_state(&r2), "C16 moved population: generator states differ");
 }
 pub fn tournament(pop: &[i32; 3], tape: &Tape) {
-    moved(&Tournament::binary(), pop, tape);
     twice(tape, |r| Tournament::binary().select(pop, r).ok(), ptr_same);
     interleaved(tape, || Select::new(Tournament::binary()), |s, r| s.apply(pop, r).ok(), ptr_same);
 }
@@ -157,6 +156,13 @@ mod proofs {
         let pop: [i32; 3] = kani::any();
         selectors(&pop, &Tape::any());
         crate::witness!(pop[0] == pop[1], "WITNESS duplicates");
+    }
+    #[kani::proof]
+    #[kani::unwind(14)]
+    fn c16_tournament_moved() {
+        let pop: [i32; 3] = kani::any();
+        moved(&Tournament::binary(), &pop, &Tape::any());
+        crate::witness!(pop[0] == pop[1] && pop[1] == pop[2], "WITNESS all tied");
     }
     #[kani::proof]
     #[kani::unwind(14)]
